@@ -252,6 +252,11 @@ func C07(tier string) int {
 		}()
 	}
 	wg.Wait()
+	// rejections raised BEFORE the entity strategy runs (system-entity constraint, also through a child store):
+	// every rejected operation must fail at the store call and leave the database unchanged
+	ssc := newSysScenario()
+	sysEx := runE1(rep, &renamed{Scenario: ssc, name: "S_sys+child (rejections before persist)"}, explore.Config{Programs: sysQuickPrograms(ssc)})
+	rep.Count("evaluations", int64(len(sysEx.States))*int64(len(sysQuickPrograms(ssc))))
 	rep.Set("evaluations", rep.Get("evaluations"))
 	rep.Set("distinct_nontrivial", int(rep.Get("failure_cases")))
 	rep.Set("tracked_spawns", vsync.SpawnCount())
